@@ -92,7 +92,7 @@ def generate(seed: int, tier: str) -> Dict[str, Any]:
                 mags = ro.sample([0.05, -0.1, 0.15, 0.2, -0.25, 0.3, 0.35], len(TARGETS))
                 deltas = [{"kind": "edge" if t.startswith("e:") else "node", "id": t, "attr": "weight", "delta": m, "op_idx": None}
                           for t, m in zip(ro.sample(TARGETS, len(TARGETS)), mags)]
-            fault = {"export": ro.chance(0.12), "consume": ro.chance(0.15),
+            fault = {"export": ro.chance(0.12), "consume": ro.chance(0.15), "garbage_w": ro.choice([None] * 9 + [[None], ["abc"], [[1]]]),
                      "batch": ro.weighted([("ok", 5), ("raise", 3), ("odd:" + ro.choice(ODD_RESULTS), 2)]),
                      "singles": sorted(set(ro.randint(0, 5) for _ in range(ro.choice([0, 0, 1, 2])))),
                      "exc": ro.choice(["RuntimeError", "ValueError", "KeyError", "OSError"])}
@@ -172,6 +172,12 @@ class RecordingStore(InMemoryGraphStore):
         if self.fault.get("export"):
             self.export_raised = getattr(self, "export_raised", 0) + 1
             raise _EXC[self.fault.get("exc", "RuntimeError")]("simulated export failure")
+        if self.fault.get("garbage_w"):
+            # ... and a weight map in a bad state: an entry that holds no number, an entry under a malformed key
+            self.w = {("node", "n:a", "weight"): 0.5, ("node", "n:b", "weight"): self.fault["garbage_w"][0], "plain": 1.0}
+            self.garbage_w_seen = getattr(self, "garbage_w_seen", 0) + 1
+        elif hasattr(self, "w"):
+            del self.w
         raise NotImplementedError   # no structured export: the writer falls back to the weight map
 
     def apply_deltas(self, gid: str, deltas: List[Any]) -> Any:  # type: ignore[override]
